@@ -1,0 +1,40 @@
+//go:build verif
+
+package mint
+
+import (
+	"net/http"
+
+	"github.com/elnosh/gonuts/cashu"
+	"github.com/elnosh/gonuts/mint/storage"
+)
+
+// Verification hooks. Compiled only with the `verif` build tag; they add
+// accessors for the verification harness and change no behaviour.
+
+// VerifWrapDB replaces the mint's storage with wrap(current storage).
+func (m *Mint) VerifWrapDB(wrap func(storage.MintDB) storage.MintDB) {
+	m.db = wrap(m.db)
+}
+
+// VerifDB returns the storage currently used by the mint.
+func (m *Mint) VerifDB() storage.MintDB {
+	return m.db
+}
+
+// VerifHandler returns the HTTP handler so requests can be served in-process.
+func (ms *MintServer) VerifHandler() http.Handler {
+	return ms.httpServer.Handler
+}
+
+// VerifCacheLen returns the number of entries in the response cache.
+func (ms *MintServer) VerifCacheLen() int {
+	ms.cache.mu.RLock()
+	defer ms.cache.mu.RUnlock()
+	return len(ms.cache.items)
+}
+
+// VerifVerifyBlindedMessages exposes the SIG_ALL output check.
+func VerifVerifyBlindedMessages(proofs cashu.Proofs, blindedMessages cashu.BlindedMessages) error {
+	return verifyBlindedMessages(proofs, blindedMessages)
+}
